@@ -233,6 +233,16 @@ def replay(beh, gname, workdir, tag):
                         check_file(path, st["res"]["file"], gname, light=tag.startswith("f"))
                     except Div as d:
                         note(d, k)
+                elif name == "SaveFail":
+                    fr = objs[act["o"] - 1]
+                    bad = os.path.join(workdir, "no_such_directory_%s" % tag, "x.%s" % act["fmt"])
+                    try:
+                        if act["fmt"] == "fil":
+                            fr.save_fil(bad)
+                        else:
+                            fr.save_h5(bad)
+                    except (OSError, IOError):
+                        raise OSError("save into a missing directory")       # any OS-level failure is the expected outcome
                 elif name == "LoadSub":
                     try:
                         check_loadsub(files[act["file"]], st["res"]["file"], act["l"], act["r"], gname)
@@ -325,6 +335,10 @@ def check_integrate(fr, axis, res, gname):
         raw = sums / n
         if norm.shape != raw.shape or not np.all(np.isfinite(norm)):
             raise Div("C17", "Integrate.normalize", "finite", np.asarray(norm).tolist())
+        obj_n = stg.integrate(fr, axis=axis, mode="mean", normalize=True, as_frame=True)
+        arr_n = obj_n.data[0] if axis == "t" else obj_n.data[:, 0]
+        if arr_n.shape != norm.shape or np.max(np.abs(arr_n - norm)) > 1e-9 * max(1.0, np.max(np.abs(norm))):
+            raise Div("C17", "Integrate.normalize.as_frame", "the object holds the normalised values the plain call returns", np.asarray(arr_n).tolist())
         a, b = np.polyfit(raw, norm, 1)
         if a <= 0 or np.max(np.abs(a * raw + b - norm)) > 1e-6 * max(1.0, np.max(np.abs(norm))):
             raise Div("C17", "Integrate.normalize", "increasing affine image of the raw result", np.asarray(norm).tolist())
